@@ -1,10 +1,13 @@
 package main
 
 import (
+	"bufio"
 	"encoding/binary"
 	"encoding/json"
 	"fmt"
+	"io"
 	"os"
+	"os/exec"
 	"path/filepath"
 	"regexp"
 	"runtime"
@@ -181,6 +184,7 @@ func overlaps(notes []vsched.Note) map[string]bool {
 }
 
 var lastObs *obs
+var supplementResult map[string]interface{}
 var budgetEnd time.Time
 var exploreNoSleep, exploreNoCache bool
 
@@ -415,39 +419,44 @@ func jobs(quick bool) []job {
 		}
 	}
 	if quick {
-		add("S1", 5, 0, 1, 2, 3)
-		add("S8", 5, 0, 1, 2)
-		add("S9", 8, 0, 1, 2)
-		add("S2", 15, 0, 1, 2)
-		add("S4", 10, 0, 1)
-		add("S3a", 8, 0, 1)
-		add("S3b", 8, 0, 1)
-		add("S3c", 8, 0, 1)
-		add("S6", 8, 0)
-		add("S3", 12, 0)
-		add("S4", 15, 2)
+		// breadth first: every harness at bound 0, then bound 1, then bound 2 (time permitting)
+		for _, h := range []string{"S1", "S8", "S9", "S2", "S4", "S3a", "S3b", "S3c", "S6"} {
+			add(h, 8, 0)
+		}
+		for _, h := range []string{"S1", "S8", "S9", "S2", "S4", "S3b", "S3a", "S3c"} {
+			add(h, 10, 1)
+		}
+		for _, h := range []string{"S1", "S8", "S9", "S2", "S4"} {
+			add(h, 15, 2)
+		}
+		add("S1", 5, 3)
+		add("S3", 15, 0)
 		return out
 	}
-	add("S1", 10, 0, 1, 2, 3)
-	add("S8", 10, 0, 1, 2, 3)
-	add("S9", 30, 0, 1, 2, 3)
-	add("S2", 60, 0, 1, 2, 3)
-	add("S4", 90, 0, 1, 2, 3)
-	add("S3a", 120, 0, 1, 2)
-	add("S3b", 120, 0, 1, 2)
-	add("S3c", 120, 0, 1, 2)
-	add("S6", 150, 0, 1, 2)
-	add("S7", 150, 0, 1, 2)
-	add("S5", 150, 0, 1, 2)
-	add("S3", 240, 0, 1)
+	// thorough: breadth first as well
+	for _, h := range []string{"S1", "S8", "S9", "S2", "S4", "S3a", "S3b", "S3c", "S6", "S5", "S7", "S3"} {
+		add(h, 40, 0)
+	}
+	for _, h := range []string{"S1", "S8", "S9", "S2", "S4", "S3b", "S3a", "S3c", "S6", "S5", "S7"} {
+		add(h, 60, 1)
+	}
+	for _, h := range []string{"S1", "S8", "S9", "S2", "S4", "S3b", "S3a", "S3c", "S6"} {
+		add(h, 75, 2)
+	}
+	for _, h := range []string{"S1", "S8", "S9", "S2", "S4"} {
+		add(h, 60, 3)
+	}
+	add("S3", 120, 1)
+	add("S5", 90, 2)
+	add("S7", 90, 2)
 	return out
 }
 
 func c32(r *engine.Run) {
-	runtime.GOMAXPROCS(1) // the cooperative scheduler hands over between goroutines: one P avoids cross-thread wake-ups
-	budget := 75 * time.Second
+	runtime.GOMAXPROCS(1)      // the cooperative scheduler hands over between goroutines: one P avoids cross-thread wake-ups
+	budget := 60 * time.Second // the build steps of ./run take another 10-30 s
 	if r.Thorough() {
-		budget = 17 * time.Minute
+		budget = 14 * time.Minute
 	}
 	r.SetBudget(budget)
 	budgetEnd = time.Now().Add(budget)
@@ -478,6 +487,10 @@ func c32(r *engine.Run) {
 		plan[k].bounds = append(plan[k].bounds, x.bound)
 	}
 	results := runPlan(r, js)
+	stopWorkers()
+	if r.Thorough() && os.Getenv("VERIF_C32_ONLY") == "" {
+		supplementResult = supplement(r, 100, 150*time.Second)
+	}
 	report(r, plan, results)
 }
 
@@ -534,10 +547,13 @@ func numWorkers() int {
 // bitsFor sizes the visited table of the next bound from the state count of the previous one.
 func bitsFor(prev []*harnessResult) uint {
 	if len(prev) == 0 {
-		return 20
+		return 18
 	}
-	need := prev[len(prev)-1].Stats.CacheStates * 24 // states grow roughly 8x per preemption; keep the table < 1/3 full
-	bits := uint(18)
+	// states grow roughly 4-8x per preemption.  The table is kept small on purpose: first-touch page faults are
+	// expensive, every worker process faults every page it touches; a table that fills up (75%) makes the job
+	// start again with a table 8 times larger.
+	need := prev[len(prev)-1].Stats.CacheStates * 12
+	bits := uint(17)
 	for (int64(1) << bits) < need {
 		bits++
 	}
@@ -639,6 +655,18 @@ func swarm(r *engine.Run, harnessName string, bound int, bits uint) *harnessResu
 		m.WallS = time.Since(start).Seconds()
 		return m
 	}
+	// determinism self-check: the same (default) schedule executed twice must give the identical trace
+	{
+		ro := vsched.Options{Horizon: 4000, LowPriority: lowPriority}
+		a := vsched.Replay(bodyOf(h), nil, ro)
+		b := vsched.Replay(bodyOf(h), a.Choices, ro)
+		lastObs = nil
+		if a.TraceKey != b.TraceKey || strings.Join(traceLines(a, 0), "\n") != strings.Join(traceLines(b, 0), "\n") || a.Outcome != b.Outcome {
+			m.Stats.Broken = "nondeterminism: replaying the same schedule gave a different trace"
+			m.Stats.Exhaustive = false
+			return finish()
+		}
+	}
 	// phase A: try in this process with a private cache and a small cap
 	if small := exploreHarness(h, exploreCfg{bound: bound, deadline: budgetEnd, maxExecs: 3000}); small.Stats.Exhaustive || small.Stats.Broken != "" {
 		m.merge(small, traces, nontriv, fails)
@@ -693,27 +721,22 @@ func swarm(r *engine.Run, harnessName string, bound int, bits uint) *harnessResu
 			err string
 		}
 		results := make([]wres, n)
+		pool := workerPool(n)
 		var wg sync.WaitGroup
 		for i := 0; i < n; i++ {
 			wg.Add(1)
 			go func(i int) {
 				defer wg.Done()
 				keyfile := filepath.Join(dir, fmt.Sprintf("keys-%s-%d-%d", harnessName, bound, i))
-				left := time.Until(budgetEnd) + 60*time.Second
-				wr := engine.RunWorker(nil, 16<<20, left, "explore", harnessName, strconv.Itoa(bound), tablePath, strconv.Itoa(int(bits)),
-					strconv.Itoa(i), strconv.FormatInt(budgetEnd.UnixNano(), 10), keyfile, itemsPath)
-				if wr.TimedOut || wr.Died {
-					results[i].err = fmt.Sprintf("worker %d died (timeout=%v exit=%d): %s", i, wr.TimedOut, wr.ExitCode, tail(string(wr.Stderr), 300))
-					return
-				}
-				var hr harnessResult
-				if err := json.Unmarshal(wr.Stdout, &hr); err != nil {
-					results[i].err = fmt.Sprintf("worker %d: bad output: %v: %s", i, err, tail(string(wr.Stdout), 200))
+				req := workerReq{Harness: harnessName, Bound: bound, Table: tablePath, Bits: bits, Deadline: budgetEnd.UnixNano(), Keyfile: keyfile, Items: itemsPath}
+				hr, err := pool[i].do(req, time.Until(budgetEnd)+60*time.Second)
+				if err != nil {
+					results[i].err = fmt.Sprintf("worker %d: %v", i, err)
 					return
 				}
 				hr.TraceKeys, hr.NontrivK = readKeys(keyfile)
 				os.Remove(keyfile)
-				results[i].res = &hr
+				results[i].res = hr
 				if os.Getenv("VERIF_C32_VERBOSE") != "" {
 					fmt.Fprintf(os.Stderr, "  worker %d: execs=%d pruned=%d %.1fs (done at %.1fs)\n", i, hr.Stats.Executions, hr.Stats.Pruned, hr.WallS, time.Since(start).Seconds())
 				}
@@ -761,53 +784,168 @@ func readKeys(path string) (all, nontriv []uint64) {
 }
 
 func init() {
-	// explore <harness> <bound> <table> <bits> <worker index> <deadline unix nano> <keyfile> <items file>
-	workers["explore"] = func(args []string) {
+	// serve: a persistent worker process; one JSON request per line on stdin, one JSON result per line on stdout
+	workers["serve"] = func(args []string) {
 		runtime.GOMAXPROCS(1)
-		h := harnessByName(args[0])
-		bound, _ := strconv.Atoi(args[1])
-		bits, _ := strconv.Atoi(args[3])
-		dl, _ := strconv.ParseInt(args[5], 10, 64)
-		t, err := vsched.OpenSharedTable(args[2], uint(bits))
-		if err != nil {
-			fmt.Fprintln(os.Stderr, err)
-			os.Exit(4)
-		}
-		var items [][]vsched.PrefixStep
-		if b, err := os.ReadFile(args[7]); err != nil || json.Unmarshal(b, &items) != nil {
-			fmt.Fprintln(os.Stderr, "items file:", err)
-			os.Exit(4)
-		}
-		res := exploreHarness(h, exploreCfg{bound: bound, deadline: time.Unix(0, dl), shared: t, next: func() ([]vsched.PrefixStep, bool) {
-			i := t.NextItem()
-			if i >= int64(len(items)) {
-				return nil, false
+		in := bufio.NewReaderSize(os.Stdin, 1<<16)
+		out := json.NewEncoder(os.Stdout)
+		for {
+			line, err := in.ReadBytes('\n')
+			if len(line) > 0 {
+				var req workerReq
+				if json.Unmarshal(line, &req) != nil {
+					os.Exit(4)
+				}
+				out.Encode(serveOne(req))
 			}
-			return items[i], true
-		}})
-		if t.IsFull() {
-			res.Stats.Exhaustive = false
-			res.Stats.Stopped = "visited table full"
-		}
-		var buf []byte
-		nt := map[uint64]bool{}
-		for _, k := range res.NontrivK {
-			nt[k] = true
-		}
-		for _, k := range res.TraceKeys {
-			var rec [9]byte
-			binary.LittleEndian.PutUint64(rec[:], k)
-			if nt[k] {
-				rec[8] = 1
+			if err != nil {
+				return
 			}
-			buf = append(buf, rec[:]...)
 		}
-		if err := os.WriteFile(args[6], buf, 0o600); err != nil {
-			fmt.Fprintln(os.Stderr, err)
-			os.Exit(4)
-		}
-		json.NewEncoder(os.Stdout).Encode(res)
 	}
+}
+
+type workerReq struct {
+	Harness  string `json:"harness"`
+	Bound    int    `json:"bound"`
+	Table    string `json:"table"`
+	Bits     uint   `json:"bits"`
+	Deadline int64  `json:"deadline"`
+	Keyfile  string `json:"keyfile"`
+	Items    string `json:"items"`
+}
+
+func serveOne(req workerReq) *harnessResult {
+	fail := func(msg string) *harnessResult {
+		return &harnessResult{Harness: req.Harness, Bound: req.Bound, Stats: vsched.Stats{Bound: req.Bound, Broken: msg}}
+	}
+	h := harnessByName(req.Harness)
+	if h == nil {
+		return fail("unknown harness")
+	}
+	t, err := vsched.OpenSharedTable(req.Table, req.Bits)
+	if err != nil {
+		return fail(err.Error())
+	}
+	defer t.Close()
+	var items [][]vsched.PrefixStep
+	if b, err := os.ReadFile(req.Items); err != nil || json.Unmarshal(b, &items) != nil {
+		return fail("items file unreadable")
+	}
+	res := exploreHarness(h, exploreCfg{bound: req.Bound, deadline: time.Unix(0, req.Deadline), shared: t, next: func() ([]vsched.PrefixStep, bool) {
+		i := t.NextItem()
+		if i >= int64(len(items)) {
+			return nil, false
+		}
+		return items[i], true
+	}})
+	if t.IsFull() {
+		res.Stats.Exhaustive = false
+		res.Stats.Stopped = "visited table full"
+	}
+	var buf []byte
+	nt := map[uint64]bool{}
+	for _, k := range res.NontrivK {
+		nt[k] = true
+	}
+	for _, k := range res.TraceKeys {
+		var rec [9]byte
+		binary.LittleEndian.PutUint64(rec[:], k)
+		if nt[k] {
+			rec[8] = 1
+		}
+		buf = append(buf, rec[:]...)
+	}
+	if err := os.WriteFile(req.Keyfile, buf, 0o600); err != nil {
+		return fail(err.Error())
+	}
+	return res
+}
+
+// procWorker is a persistent worker process of the master.
+type procWorker struct {
+	cmd *exec.Cmd
+	in  io.WriteCloser
+	out *bufio.Reader
+	bad bool
+}
+
+var procPool []*procWorker
+
+func workerPool(n int) []*procWorker {
+	for len(procPool) < n {
+		procPool = append(procPool, nil)
+	}
+	for i := 0; i < n; i++ {
+		if procPool[i] == nil || procPool[i].bad {
+			procPool[i] = startWorker()
+		}
+	}
+	return procPool
+}
+
+func startWorker() *procWorker {
+	exe, _ := os.Executable()
+	cmd := exec.Command(exe, "--worker", "serve")
+	cmd.Env = append(os.Environ(), "GOMAXPROCS=1")
+	cmd.Stderr = os.Stderr
+	in, err1 := cmd.StdinPipe()
+	out, err2 := cmd.StdoutPipe()
+	w := &procWorker{cmd: cmd, in: in}
+	if err1 != nil || err2 != nil || cmd.Start() != nil {
+		w.bad = true
+		return w
+	}
+	w.out = bufio.NewReaderSize(out, 1<<20)
+	return w
+}
+
+func (w *procWorker) do(req workerReq, limit time.Duration) (*harnessResult, error) {
+	if w.bad {
+		return nil, fmt.Errorf("worker process could not be started")
+	}
+	b, _ := json.Marshal(req)
+	if _, err := w.in.Write(append(b, '\n')); err != nil {
+		w.bad = true
+		return nil, err
+	}
+	type reply struct {
+		line []byte
+		err  error
+	}
+	ch := make(chan reply, 1)
+	go func() {
+		line, err := w.out.ReadBytes('\n')
+		ch <- reply{line, err}
+	}()
+	select {
+	case r := <-ch:
+		if r.err != nil {
+			w.bad = true
+			return nil, fmt.Errorf("worker died: %v", r.err)
+		}
+		var hr harnessResult
+		if err := json.Unmarshal(r.line, &hr); err != nil {
+			w.bad = true
+			return nil, fmt.Errorf("bad worker output: %v", err)
+		}
+		return &hr, nil
+	case <-time.After(limit):
+		w.bad = true
+		w.cmd.Process.Kill()
+		return nil, fmt.Errorf("worker did not answer within %s", limit)
+	}
+}
+
+func stopWorkers() {
+	for _, w := range procPool {
+		if w != nil && !w.bad {
+			w.in.Close()
+			w.cmd.Process.Kill()
+			w.cmd.Wait()
+		}
+	}
+	procPool = nil
 }
 
 func report(r *engine.Run, plan []tierPlan, results map[string][]*harnessResult) {
@@ -942,6 +1080,9 @@ func report(r *engine.Run, plan []tierPlan, results map[string][]*harnessResult)
 	cov["step_horizon"] = 4000
 	cov["outcome_histogram"] = hist
 	cov["harnesses"] = perHarness
+	if supplementResult != nil {
+		cov["supplement_free_running_race_detector"] = supplementResult
+	}
 	if rep := rewriteReport(); rep != nil {
 		cov["rewriter"] = rep
 	} else {
